@@ -103,6 +103,12 @@ class Cfg:
         self.extra = kw.get("extra", [])
         self.start = kw.get("start", None)        # (file, step or None)
         self.zoom = kw.get("zoom", None)
+        # machine parameters that are not at their defaults (None = leave the default)
+        self.bend = kw.get("bend", None)          # BendingRadius (m); default -1 = iso-magnetic ring
+        self.alpha0 = kw.get("alpha0", None)
+        self.fs = kw.get("fs", None)              # SynchrotronFrequency (Hz); default 0 = from alpha0
+        self.vrf = kw.get("vrf", None)            # AcceleratingVoltage (V)
+        self.pqsize = kw.get("pqsize", None)      # PhaseSpaceSize (sigma); default 12
 
     def has_wake(self):
         return (self.gap != 0 and self.usecsr) or self.wallcond > 0 or self.collimator > 0
@@ -131,6 +137,10 @@ class Cfg:
             a += ["--CutoffFreq", self.cutoff]
         if self.zoom is not None:
             a += ["--InitialDistZoom", self.zoom]
+        for opt, v in (("--BendingRadius", self.bend), ("--alpha0", self.alpha0), ("--SynchrotronFrequency", self.fs),
+                       ("--AcceleratingVoltage", self.vrf), ("--PhaseSpaceSize", self.pqsize)):
+            if v is not None:
+                a += [opt, repr(float(v))]
         if self.tracking is not None and workdir:
             tf = os.path.join(workdir, "track.txt")
             with open(tf, "w") as f:
